@@ -325,6 +325,9 @@ def dispatch(
             # Let extract_selector consume its own tokens
             # Note: must materialize generator immediately so tokens are consumed now
             peers = list(extract_selector(tokeniser, reactor, service))
+            if not peers:
+                # a selector was given and matched nobody: never fall back to every peer
+                raise NoMatchingPeers(f'no peer matches the selector starting with {peeked}')
             node = node[SELECTOR_KEY]
             # Don't consume again - extract_selector already did
             if callable(node):
